@@ -56,7 +56,7 @@ func ChildServer() *Srv {
 		if ms, err := strconv.Atoi(os.Getenv("VERIF_SLOW_CB")); err == nil && ms > 0 {
 			childSrv = startSrvSlow(ms)
 		} else {
-			childSrv = StartSrv(nil)
+			childSrv = StartSrv(ChildKeyFunc)
 		}
 	})
 	return childSrv
@@ -88,6 +88,7 @@ func startSrvSlow(maxMS int) *Srv {
 		var n int64
 		var mu sync.Mutex
 		s.G = service.New(service.WithHostPorts(s.Addr),
+			service.WithKeyFunc(func(m *service.Message) (string, bool) { return ChildKeyFunc(m.JTMessage.Header.TerminalPhoneNo) }),
 			service.WithCustomTerminalEventer(func() service.TerminalEventer {
 				mu.Lock()
 				n++
